@@ -89,6 +89,13 @@ def gamma_case(draw, tier):
     nmax = 40 if tier == 'quick' else 300
     spec = draw(gen.obs_spec(ens_max=3, rep_max=3, nmin=5, nmax=nmax, sigma=gen.fl(0.01, 2.0)))
     enss = sorted(set(c['name'].split('|')[0] for c in spec['chains']))
+    if draw(st.integers(0, 3)) == 0:
+        # whole ensembles at another order of magnitude: the estimator is scale covariant, absolute thresholds are not
+        for e in enss:
+            k = draw(st.integers(-30, 30))
+            for c in spec['chains']:
+                if c['name'].split('|')[0] == e:
+                    c['data'] = dict(c['data'], scale=10.0 ** k)
     return {'obs': spec, 'par': draw(params(enss))}
 
 
@@ -211,6 +218,10 @@ def gamma_oracle(spec):
         if r.get('degenerate'):
             labs.add('zero_variance')
     labs.add('fft:%s' % spec['par'].get('fft'))
+    sc = [c['data'].get('scale') for c in spec['obs']['chains'] if c['data'].get('scale') is not None]
+    if sc:
+        nt = True
+        labs.add('scaled:' + ('tiny' if min(sc) < 1e-12 else 'huge' if max(sc) > 1e12 else 'moderate'))
     if covparts:
         labs.add('with_cov')
     return {'nt': nt, 'cls': sorted(labs)}
